@@ -56,6 +56,7 @@ func isReportCall(in ssa.Instruction) bool {
 
 func runC19(c *Ctx, tier string) {
 	p := c.P
+	runServiceResolvesNamesFresh(c, "C19-N1")
 	c.Rule("C19-E1", "handlers report every error: in every service handler, an error result is never dropped, and on the branch where it is non-nil every path to a return passes a report to the client (w.Error / WriteError / handleError / an explicit status)")
 	c.Rule("C19-E2", "late errors are written in-band on every path: every path through queryio.Writer.WriteControl reaches a write on the response")
 	c.Rule("C19-K1", "control-message tables agree: every api.Query* type the server writes is bound in the client's unmarshaler and has an arm in the client scanner; QueryError becomes a returned error")
